@@ -528,6 +528,10 @@ class ExprMixin:
         if opn in ("In", "NotIn"):
             r = self.contains(b, a, st, fr, node)
             return r if opn == "In" else znot(r)
+        from .values import FieldType
+        if isinstance(a, FieldType) and isinstance(b, FieldType) and opn in ("Eq", "NotEq"):
+            eq = (a.code == b.code) if a.code.sort() == b.code.sort() else False
+            return eq if opn == "Eq" else znot(eq)
         from .prims import StrArr, BoolTuple
         if isinstance(a, StrArr) or isinstance(b, StrArr):
             arr_, other = (a, b) if isinstance(a, StrArr) else (b, a)
@@ -583,6 +587,19 @@ class ExprMixin:
         if isinstance(a, DTypeV) and isinstance(b, DTypeV) and opn in ("Eq", "NotEq"):
             if a.tag != b.tag:
                 return opn == "NotEq"
+            if isinstance(a.h, HStruct) and isinstance(b.h, HStruct):
+                # numpy: structured dtypes are equal iff same field names in the same order with equal types and shapes
+                if tuple(a.h.fields) != tuple(b.h.fields):
+                    return opn == "NotEq"
+                conds = []
+                for nm in a.h.fields:
+                    fa, fb = a.h.ftype.get(nm), b.h.ftype.get(nm)
+                    if fa is None or fb is None:
+                        raise Unsupported("comparison of structured dtypes without type codes", node)
+                    conds.append(self.compare(ast.Eq(), fa, fb, st, fr, node))
+                    conds.append(to_z3(a.h.fshape.get(nm, 0)) == to_z3(b.h.fshape.get(nm, 0)))
+                eqs = zand(*conds)
+                return eqs if opn == "Eq" else znot(eqs)
             if a.did is None or b.did is None:
                 raise Unsupported("comparison of structured dtypes", node)
             eq = z3.simplify(a.did == b.did)
@@ -773,6 +790,10 @@ class ExprMixin:
                     m = self.find_method(h.cls, attr, fr)
                     if m is not None:
                         return Bound(v, m)
+                    for cname, cc in self.contracts.items():
+                        if cc.assumed and cname.endswith(".%s.%s" % (h.cls, attr)):
+                            mod_, _, qual_ = cname.rpartition("." + h.cls + ".")
+                            return Bound(v, Func(mod_, h.cls + "." + attr, None))
                     # method of an extension type implemented in C under contract: <Class>_<method>
                     for cname, cc in self.contracts.items():
                         if cc.lang == "c" and cname.split("#")[0].endswith(".%s_%s" % (h.cls, attr)):
@@ -949,6 +970,11 @@ class ExprMixin:
                                      fresh=hb.fresh))
             if isinstance(h, (HArr, HArr2)):
                 return self.arr_subscript(base, h, idx, st, fr, node)
+        from .values import FieldType
+        if isinstance(base, FieldType):
+            if isinstance(base.code, z3.ExprRef) and base.code.sort() == z3.StringSort():
+                return self.subscript(base.code, idx, st, fr, node)
+            raise Unsupported("indexing a type code that is not a string", node)
         from .prims import StrArr
         if isinstance(base, StrArr):
             c = as_const(idx) if is_sym(idx) else idx
